@@ -231,7 +231,7 @@ where
     // returning `None` if the linked variable has not yet been seen by this thread and is
     // therefore not present in the local registry.
     fn new_from_local_registry(&self) -> Option<T> {
-        LOCAL_REGISTRY.with_borrow(|registry| {
+        let family = LOCAL_REGISTRY.with_borrow(|registry| {
             let family_key = (self.family_key_provider)();
 
             registry
@@ -239,8 +239,13 @@ where
                 .and_then(|w| w.downcast_ref::<Family<T>>())
                 // TODO: We clone the family here, only to immediately transform it to a
                 // T instance. Can we skip the middle step and just create an instance directly?
-                .map(|family| family.clone().into())
-        })
+                .cloned()
+        })?;
+
+        // Creating the instance runs user code, which may itself use other linked variables
+        // for the first time on this thread and thereby needs to update the local registry.
+        // We therefore create the instance only after the registry borrow has ended.
+        Some(family.into())
     }
 }
 
